@@ -1,0 +1,80 @@
+// SPDX-FileCopyrightText: 2026 The Pion community <https://pion.ly>
+// SPDX-License-Identifier: MIT
+
+//go:build verif
+
+package sctp
+
+// Association-level guard obligations: "statement S is only reached under condition G", stated as
+// callee preconditions, assertions at every call of a callee (at call) or at every store to a field
+// (at store), and postconditions of the sequential handlers.
+
+func sends[T any](ch chan T) int { return 0 }
+
+// ---- C19 / C08 / C04: which timer gets which retry budget ----
+
+//@ func newRTXTimer
+//@   ensures#fields result != nil && isNew(result) && result.id == id && result.maxRetrans == maxRetrans &&
+//@      result.state == rtxTimerStopped && result.nRtos == 0 && result.pending == 0
+//@   tags C19 C08
+
+//@ func createAssociationFromConfigWithTsn
+//@   at store Association.t1Init assert#t1-init-bounded{C19,C04} stored != nil && stored.id == timerT1Init && stored.maxRetrans == maxInitRetrans
+//@   at store Association.t1Cookie assert#t1-cookie-bounded{C19,C04} stored != nil && stored.id == timerT1Cookie && stored.maxRetrans == maxInitRetrans
+//@   at store Association.t2Shutdown assert#t2-forever{C19,C08} stored != nil && stored.id == timerT2Shutdown && stored.maxRetrans == noMaxRetrans
+//@   at store Association.t3RTX assert#t3-forever{C19} stored != nil && stored.id == timerT3RTX && stored.maxRetrans == noMaxRetrans
+//@   at store Association.tReconfig assert#reconfig-forever{C19,C14} stored != nil && stored.id == timerReconfig && stored.maxRetrans == noMaxRetrans
+
+// ---- C10: congestion window, peer window ----
+
+//@ func Association.setCWND
+//@   ensures#floor a.cwnd >= a.minCwnd && (cwnd >= a.minCwnd ==> a.cwnd == cwnd) && (cwnd < a.minCwnd ==> a.cwnd == a.minCwnd)
+//@   modifies a.cwnd
+//@   tags C10
+
+//@ func Association.popPendingDataChunksToSend
+//@   at call Association.movePendingDataChunkToInflightQueue assert#within-cwnd-or-single-probe{C10}
+//@      uint32(a.inflightQueue.getNumBytes())+uint32(len(arg1.userData)) <= a.CWND() || (len(chunks) == 0 && a.inflightQueue.size() == 0)
+//@   at call Association.setRWND assert#within-peer-window{C10} dataLen <= a.RWND() && arg1 == a.RWND()-dataLen
+
+//@ func Association.handleSack
+//@   at call Association.setRWND assert#rwnd-from-accepted-sack-only{C10} err == nil && result.processed &&
+//@      arg1 == ite(uint32(a.inflightQueue.getNumBytes()) >= selectiveAckChunk.advertisedReceiverWindowCredit, 0, selectiveAckChunk.advertisedReceiverWindowCredit-uint32(a.inflightQueue.getNumBytes()))
+
+// ---- C08: shutdown transitions ----
+
+//@ func Association.setState
+//@   requires#drained-before-shutdown (newState == shutdownSent || newState == shutdownAckSent) ==>
+//@      !a.hasPendingOrInflightData() || (a.state == shutdownSent && newState == shutdownAckSent)
+//@   ensures#set a.state == newState
+//@   modifies a.state
+//@   tags C08
+
+//@ func Association.Shutdown
+//@   tags C08
+//@ func Association.advanceShutdownAfterDataDrain
+//@   ensures#moves-only-when-drained{C08} result ==> !a.hasPendingOrInflightData() &&
+//@      ((state == shutdownPending && a.willSendShutdown && a.state == shutdownSent) || (state == shutdownReceived && a.willSendShutdownAck && a.state == shutdownAckSent))
+//@   ensures#otherwise-unchanged{C08} !result ==> a.state == old(a.state) && a.willSendShutdown == old(a.willSendShutdown) && a.willSendShutdownAck == old(a.willSendShutdownAck)
+//@   tags C08
+//@ func Association.finishShutdownHandling
+//@   ensures#ack-when-drained{C08} (state == established || state == shutdownPending || state == shutdownReceived) && old(!a.hasPendingOrInflightData()) ==>
+//@      a.willSendShutdownAck && a.state == shutdownAckSent && sends(a.awakeWriteLoopCh) != old(sends(a.awakeWriteLoopCh))
+//@   ensures#wait-for-data{C08} (state == established || state == shutdownPending || state == shutdownReceived) && !old(!a.hasPendingOrInflightData()) ==>
+//@      a.state == shutdownReceived && a.willSendShutdownAck == old(a.willSendShutdownAck)
+//@   tags C08
+//@ func Association.handleShutdown
+//@   ensures#crossed-shutdown-is-acked-at-once{C08} !old(a.shutdownCompletePending) && old(a.state) == shutdownSent ==>
+//@      a.state == shutdownAckSent && a.willSendShutdownAck && !a.willSendShutdown && sends(a.awakeWriteLoopCh) != old(sends(a.awakeWriteLoopCh))
+//@   ensures#ignored-when-complete-pending{C08} old(a.shutdownCompletePending) ==> a.state == old(a.state) && a.willSendShutdownAck == old(a.willSendShutdownAck)
+//@   tags C08
+//@ func Association.handleShutdownAck
+//@   ensures#complete{C08} old(a.state) == shutdownSent || old(a.state) == shutdownAckSent ==>
+//@      a.willSendShutdownComplete && a.shutdownCompletePending && !a.willSendShutdown && !a.willSendShutdownAck && sends(a.awakeWriteLoopCh) != old(sends(a.awakeWriteLoopCh))
+//@   ensures#ignored-otherwise{C08} !(old(a.state) == shutdownSent || old(a.state) == shutdownAckSent) ==>
+//@      a.willSendShutdownComplete == old(a.willSendShutdownComplete) && a.shutdownCompletePending == old(a.shutdownCompletePending)
+//@   tags C08
+
+//@ func Association.sendPayloadData
+//@   at call pendingQueue.push assert#only-when-established{C08,C18} a.state == established
+//@   ensures#rejected-outside-established{C08,C18} old(a.state) != established ==> result != nil && a.pendingQueue.nChunks == old(a.pendingQueue.nChunks)
